@@ -32,6 +32,9 @@ type env struct {
 	r *common.Result
 	m *common.Model
 	s *implutil.Stream
+	// epSound of the position loaded last: the recorded en-passant target belongs to a pawn that
+	// could really just have double-pushed (the side to move was not in check before the push)
+	epSound bool
 }
 
 func main() {
@@ -93,9 +96,10 @@ func (e *env) load(prop, fen string) (b *board.Board, valid, epNormal bool) {
 			Impl: impl, Model: ans[0], Note: "FromFEN differs from the model"})
 		return nil, false, false
 	}
-	if len(ans[1]) != 2 {
+	if len(ans[1]) != 3 {
 		return nil, false, false
 	}
+	e.epSound = ans[1][2] == '1'
 	return b, ans[1][0] == '1', ans[1][1] == '1'
 }
 
@@ -679,6 +683,9 @@ func (e *env) c09() {
 		if err != nil {
 			continue
 		}
+		if p.EP != 0 && !p.EPSound() {
+			continue
+		}
 		// en-passant state must be engine-normalised: drop the target if no capture is legal
 		legalMoves := implutil.Legal(b)
 		if b.EnPassant != 0 {
@@ -729,6 +736,11 @@ func (e *env) c09() {
 		}
 		b, valid, epn := e.load("C09", fen)
 		if b == nil || !valid || !epn {
+			continue
+		}
+		if !e.epSound {
+			// outside the domain: the double push that would have created this target was impossible
+			e.r.Count("skipped-ep-unsound", 1)
 			continue
 		}
 		e.r.Evaluations++
